@@ -52,7 +52,9 @@ func fanScenario(s *hx.Seq) {
 		"none": {},
 	}
 	ctx := context.Background()
-	for tn, table := range tables {
+	// (in a fixed order: the work is shared out among the worker processes by position)
+	for _, tn := range []string{"default", "none", "one", "two"} {
+		table := tables[tn]
 		if !s.Own() {
 			continue
 		}
